@@ -49,6 +49,23 @@ def run(model, tier="quick"):
                   "add by value: out-of-range arms chosen by orientation-aware tick tests; in-range swaps use the ratio in one "
                   "direction and its inverse in the other", FX, opaque=OPQ, aliases=UNI_ALIASES)
     effects_check(res, model, M + "remove_liquidity", U.REF_REMOVE_PUBLIC, "remove: amounts reported in base/quote by orientation", FX, opaque=OPQ, aliases=UNI_ALIASES)
+    effects_check(res, model, M + "add_liquidity", U.REF_ADD_PUBLIC,
+                  "add by price: bounds -> usable ticks, base/quote maxima mapped to token0/1 by orientation, used amounts mapped back",
+                  FX + ["_add_liquidity_by_tick"], opaque=OPQ + ["quote_price_pair_to_tick", "tick_to_price"], aliases=UNI_ALIASES)
+    effects_check(res, model, M + "add_liquidity_by_tick", U.REF_ADD_BY_TICK_PUBLIC,
+                  "add by tick: bounds ordered, explicit sqrt price > explicit tick (any tick but the -1 sentinel) > bar price, "
+                  "amounts mapped by orientation", FX + ["_add_liquidity_by_tick"],
+                  opaque=OPQ + ["tick_to_sqrt_price_x96", "tick_to_price"], aliases=UNI_ALIASES)
+    effects_check(res, model, M + "collect_fee", U.REF_COLLECT_PUBLIC,
+                  "collect: amounts reported in base/quote by orientation; the dry position is deleted only when nothing is left",
+                  FX, opaque=OPQ, aliases=UNI_ALIASES)
+    formula_check(res, model, M + "get_position_amount", U.REF_POSITION_AMOUNT,
+                  "position amounts at the bar price with the pool's orientation", opaque=OPQ, aliases=UNI_ALIASES)
+    formula_check(res, model, M + "get_position_status", U.REF_POSITION_STATUS,
+                  "position status: liquidity + pending amounts valued by orientation", opaque=OPQ + ["get_position_amount", "_get_value"],
+                  aliases=UNI_ALIASES)
+    effects_check(res, model, M + "remove_all_liquidity", U.REF_REMOVE_ALL, "remove every position", FX + ["remove_liquidity"],
+                  opaque=OPQ, aliases=UNI_ALIASES)
     effects_check(res, model, M + "__collect_fee", U.REF_COLLECT_INNER, "collect: each token clamped by ITS OWN pending amount", FX, opaque=OPQ, aliases=UNI_ALIASES)
     formula_check(res, model, M + "get_market_balance", U.REF_UNI_BALANCE,
                   "market value: fees and deposits mapped to base/quote by orientation, transferred positions skipped", opaque=OPQ, aliases=UNI_ALIASES)
@@ -62,7 +79,7 @@ def run(model, tier="quick"):
                   "per-token accrual uses each token's own volume and decimals", [], opaque=["from_atomic_unit"])
     nu = [r for r in C06.REFS if r[0].endswith("nearest_usable_tick")][0]
     formula_check(res, model, nu[0], nu[1], "tick trimming is round-half-even of tick/spacing (symmetric under negation)")
-    res.floor("obligations", len(res.obligations), 18)
+    res.floor("obligations", len(res.obligations), 24)
     res.assumptions = ["the reference model in sa/props/uni_refs.py is orientation-symmetric by inspection (each arm pair is a mirror image)"]
     res.not_decided = ["the 1e-12 / 0.1% numerical agreement between mirrored runs (floating point / Decimal)",
                        "a mechanical mirror-duality proof of the reference itself"]
